@@ -11,8 +11,9 @@ const { Harness } = require('../lib/rw')
 const { run } = require('../lib/world')
 const { Rng, hashStr, clip } = require('../lib/util')
 
-const POOL = ['trim', 'concat', 'substring', 'replace', 'slice', 'join', 'toUpperCase', 'padStart', 'repeat', 'charAt', 'split', 'plusOperator', 'tplOperator', 'call', 'apply', 'prototype', 'default', 'class', 'constructor', 'toString', 'aloneMethod', 'valueOf']
-const DST_NAMES = ['h1', 'stringTrim', 'ω_hook', 'default', 'class', '$x', '_y9', 'concat', 'plusOperator', 'trim']
+// (several names are substrings / prefixes of others, and some coincide with words of the prologue's own text)
+const POOL = ['trim', 'concat', 'substring', 'replace', 'slice', 'join', 'toUpperCase', 'padStart', 'repeat', 'charAt', 'split', 'plusOperator', 'tplOperator', 'call', 'apply', 'prototype', 'default', 'class', 'constructor', 'toString', 'aloneMethod', 'valueOf', 'substr', 'replaceAll', 'trimStart', 'at', 'pad', 'noop', 'res']
+const DST_NAMES = ['h1', 'stringTrim', 'ω_hook', 'default', 'class', '$x', '_y9', 'concat', 'plusOperator', 'trim', 'string', 'h', 'x', 'noop', 'op', 'globals', 'Trim', 'stringTrimStart']
 
 function randomConfig (rng) {
   const c = {}
